@@ -74,6 +74,13 @@ def main(tier, only=None):
     if only:
         os.environ["VF_ONLY"] = only
     results = runner.run_items(MOD, tier)
+    if not only:
+        # pinned points of complex-typed inputs (exact zeros, integer exponents, data-dependent output kind of real_if_close):
+        # float64 replay evidence against closed forms, the generic-position symbolic claims never visit them
+        from . import pinned_probe
+
+        enga.init()
+        results += pinned_probe.run_complex(runner.SEED)
     return runner.finish(
         ID, tier, results, t0,
         functions=gridprop.ENGINE_A_FUNCS + ["ComplexArrayVSpace (real inner product, conjugating covector, ones = 1+1j)", "match_complex", "rules for real/imag/conj/abs/absolute/angle", "fft_grad / rfft_grad / irfft_grad / fftshift rules",
